@@ -11,7 +11,8 @@ EXTENDS Integers, Sequences, FiniteSets, TLC
 CONSTANTS
     Ns,        \* byte counts a single Read may return (0 = nothing)
     MaxItems,  \* script length bound
-    FixByteReader \* TRUE: ReadByte skips (0, nil) results and delivers a byte returned together with EOF
+    FixByteReader, \* TRUE: ReadByte skips (0, nil) results and delivers a byte returned together with EOF
+    FixSteal       \* TRUE: StealBytes / ToBytes copy what an arbitrary io.WriterTo writes (it may write from one reused buffer)
 
 Errs == {"nil", "eof", "other"}
 Items == [n : Ns, err : Errs]
@@ -61,7 +62,33 @@ ByteReads(s) ==
     /\ \A i \in 1..Len(s) : s[i].n <= 1          \* ReadByte asks for one byte at a time
     /\ last' = [op |-> "bytereader", res |-> BR(s, <<>>)]
 
-Next == \E s \in Scripts : ReadFrom(s) \/ ByteReads(s)
+\* utils.StealBytes / utils.ToBytes over an io.WriterTo that writes the script's chunks. Bytes are positions 1..n of
+\* the source. "reused": the WriterTo writes every chunk from the front of one buffer it re-fills in between (io.Copy
+\* does, so io.MultiReader, bufio.Reader, ... do); otherwise every chunk is a slice of its own.
+Seg(a, n) == [i \in 1..n |-> a + i - 1]
+RECURSIVE Chunks(_, _)
+Chunks(s, at) ==
+    IF s = <<>> THEN <<>>
+    ELSE LET it == Head(s) IN
+         (IF it.n > 0 THEN << Seg(at, it.n) >> ELSE <<>>) \o (IF it.err = "nil" THEN Chunks(Tail(s), at + it.n) ELSE <<>>)
+RECURSIVE Flat(_)
+Flat(cs) == IF cs = <<>> THEN <<>> ELSE Head(cs) \o Flat(Tail(cs))
+MinI(a, b) == IF a < b THEN a ELSE b
+\* the stealer keeps the first chunk without copying it; when the second chunk arrives the kept bytes are whatever the
+\* WriterTo's buffer holds by then (the second chunk at its front), and only then they are copied
+StealRes(cs, reused) ==
+    IF Len(cs) <= 1 \/ ~reused \/ FixSteal THEN Flat(cs)
+    ELSE LET c1 == cs[1]
+             c2 == cs[2]
+             m == MinI(Len(c1), Len(c2))
+         IN SubSeq(c2, 1, m) \o SubSeq(c1, m + 1, Len(c1)) \o Flat(Tail(cs))
+
+Steal(s, reused) ==
+    /\ phase = "idle" /\ script' = s /\ phase' = "done"
+    /\ \A i \in 1..Len(s) : s[i].err # "other"
+    /\ last' = [op |-> "steal", reused |-> reused, res |-> StealRes(Chunks(s, 1), reused)]
+
+Next == \E s \in Scripts : ReadFrom(s) \/ ByteReads(s) \/ \E b \in BOOLEAN : Steal(s, b)
 Spec == Init /\ [][Next]_vars
 
 -----------------------------------------------------------------------------
@@ -82,4 +109,8 @@ C14_ByteReaderExact ==
     (phase = "done" /\ last.op = "bytereader") =>
         /\ \A i \in 1..Len(last.res.bytes) : last.res.bytes[i] = 1
         /\ Len(last.res.bytes) = Content(UpToErr(script))
+
+\* C14: collecting what a WriterTo writes yields exactly its content, however the WriterTo manages its buffers
+C14_StealExact ==
+    (phase = "done" /\ last.op = "steal") => last.res = Seg(1, Content(UpToErr(script)))
 =============================================================================
